@@ -1297,13 +1297,30 @@ func runPathsDistinct(c *Ctx) {
 		return
 	}
 	item := ObjOf(info, loop.Value)
-	isItemPath := func(e ast.Expr) bool {
+	var isItemPath func(e ast.Expr) bool
+	isItemPath = func(e ast.Expr) bool {
+		if id, ok := ast.Unparen(e).(*ast.Ident); ok {
+			// a plain copy of the path
+			n := 0
+			for _, d := range resolveExprs(vm, id, 1) {
+				if _, same := ast.Unparen(d).(*ast.Ident); same {
+					continue
+				}
+				if !isItemPath(d) {
+					return false
+				}
+				n++
+			}
+			return n > 0
+		}
 		sel, ok := ast.Unparen(e).(*ast.SelectorExpr)
 		return ok && sel.Sel.Name == "RelPath" && ObjOf(info, sel.X) == item
 	}
 	// membership test: `_, dup := M[item.RelPath]; dup` or `M[item.RelPath]` (map to bool) with an error return in the body
 	var set types.Object
 	var test *ast.IfStmt
+	var rewritten *ast.IndexExpr
+	var rewrittenAs ast.Expr
 	ast.Inspect(loop.Body, func(m ast.Node) bool {
 		is, ok := m.(*ast.IfStmt)
 		if !ok || test != nil {
@@ -1317,6 +1334,17 @@ func runPathsDistinct(c *Ctx) {
 		}
 		if x, ok := ast.Unparen(is.Cond).(*ast.IndexExpr); ok && ix == nil {
 			ix = x
+		}
+		if ix != nil && !isItemPath(ix.Index) {
+			// keyed by something computed from the path?
+			for _, d := range resolveExprs(vm, ix.Index, 2) {
+				ast.Inspect(d, func(k ast.Node) bool {
+					if e, ok := k.(ast.Expr); ok && isItemPath(e) {
+						rewritten, rewrittenAs = ix, d
+					}
+					return true
+				})
+			}
 		}
 		if ix == nil || !isItemPath(ix.Index) {
 			return true
@@ -1336,6 +1364,11 @@ func runPathsDistinct(c *Ctx) {
 		}
 		return true
 	})
+	if test == nil && rewritten != nil {
+		c.Bad("paths-distinct/refused", rewritten.Pos(), "validateManifest tests its items for repetition under the key "+types.ExprString(rewrittenAs)+", not under the path itself: two different paths that the rewrite maps to one key "+
+			"(names that differ only in case, in a trailing separator, ...) are refused as `listed twice` - a valid tree that cannot be sent or received at all")
+		return
+	}
 	c.Check(test != nil, "paths-distinct/refused", loop.Pos(), "a path that was seen before is refused",
 		"validateManifest does not refuse a manifest that lists a path twice: sender and receiver keep their per-file state by path, the scheduler a key per item - one of the two items is never begun, "+
 			"its acknowledgement never comes, and the sender waits for ever (a caller that builds the manifest itself, or a peer that sends one)")
